@@ -244,7 +244,10 @@ def egRun (body : String) : String :=
             ({ st with orc := (saturate o).1 }, outs)
           | _, _ => (st, outs)
         | _ => (st, outs)
-      else if op == "Q" then (st, observe st :: outs)
+      else if op == "Q" then
+        -- the universe (hence the class count) is sized from ALL insertions of the history: at a query that
+        -- precedes an insertion the count would include classes the implementation does not have yet — undetermined
+        (st, (if st.tracked.size < adds.length then ((observe st).splitOn "|classes:").headD "" ++ "|classes:?" else observe st) :: outs)
       else if op.startsWith "L" then
         let t := close (parseTerm (op.drop 1).toString)
         match repIdx st.orc t with
